@@ -5,7 +5,7 @@
    quantified functions; the hypotheses about them are written out in each statement. *)
 From Coq Require Import List String Ascii Bool ZArith.
 From Helm Require Import Values.Tree Chart.Paths Chart.Archive Chart.Files Chart.Save Chart.Load
-  Chart.Wf Chart.LoadProofs Chart.AgreeProofs Chart.Examples15.
+  Chart.Wf Chart.LoadProofs Chart.AgreeProofs Chart.RecProofs Chart.Examples15.
 Import ListNotations.
 Local Open Scope string_scope.
 
@@ -49,6 +49,46 @@ Example C15_roundtrip_ex :
                /\ chart_eqb c_ok c' = true.
 Proof. exact (conj codecK_ok (conj c_ok_wf c_ok_saved)). Qed.
 Print Assumptions C15_roundtrip_ex.
+
+(* ---------- round trip with the whole dependency tree ---------- *)
+(* wf_tree: every chart of the tree is well-formed on its own (as above), the names of its
+   dependencies are usable as directory names (not starting with '_' or '.', no .tgz
+   extension) and strictly increasing (the order LoadFiles returns them in since fix 14399c3).
+   Then Save succeeds, and if the archive fits the limits and the loader's nesting fuel
+   covers the depth, loading yields the same tree: same content at every node, the same
+   dependencies in the same order. *)
+Theorem C15_roundtrip_rec :
+  forall (md_enc : meta -> string) (lock_enc : lockv -> string) (json_valid : string -> bool)
+         (sanitize : meta -> meta) (is_semver : string -> bool) (rest_valid : meta -> bool)
+         (md_merge : meta -> string -> option meta) (lock_dec : string -> option (option lockv))
+         (parse_values : string -> option val) (untar : string -> tstream) (maxt maxf : Z),
+  (forall m, validate sanitize is_semver rest_valid m = Some m -> md_merge empty_meta (md_enc m) = Some m) ->
+  (forall m, has_bom (md_enc m) = false) ->
+  (forall l, lock_dec (lock_enc l) = Some (Some l)) ->
+  (forall l, has_bom (lock_enc l) = false) ->
+  forall c : chart,
+  wf_tree parse_values json_valid sanitize is_semver rest_valid c -> nobom_tree c ->
+  exists es, save md_enc lock_enc json_valid sanitize is_semver rest_valid c = Some es /\
+    (fits maxt maxf es -> forall fuel, (depth c <= fuel)%nat -> exists c',
+       load_archive md_merge lock_dec parse_values untar sanitize is_semver rest_valid maxt maxf fuel
+                    (mkTS false es false) = inr c' /\
+       same_tree c c').
+Proof. exact roundtrip_tree. Qed.
+Print Assumptions C15_roundtrip_rec.
+
+(* a codec instance that accepts every chart name, and a tree of depth 3 (top -> alpha ->
+   inner, top -> zeta) with a lock, values, templates and .prov files inside subcharts *)
+Example C15_roundtrip_rec_ex :
+  ((forall m, validate sanK semverK restT m = Some m -> mergeT empty_meta (encT m) = Some m) /\
+   (forall m, has_bom (encT m) = false) /\
+   (forall l, lock_decK (lock_encK l) = Some (Some l)) /\
+   (forall l, has_bom (lock_encK l) = false)) /\
+  (wf_tree parseK jsonK sanK semverK restT treeT /\ nobom_tree treeT /\ depth treeT = 3%nat) /\
+  exists es, save encT lock_encK jsonK sanK semverK restT treeT = Some es /\ fits 1000 100 es /\
+    exists c', load_archive mergeT lock_decK parseK untarK sanK semverK restT 1000 100 3 (mkTS false es false) = inr c'
+               /\ chart_eqb treeT c' = true /\ List.length (c_deps c') = 2%nat.
+Proof. exact (conj codecT_ok (conj treeT_ok treeT_saved)). Qed.
+Print Assumptions C15_roundtrip_rec_ex.
 
 (* K4 (known finding): both loaders strip a leading BOM from every file.  On the faithful
    model: a well-formed chart with one binary file EF BB BF 'a' 'b' 'c' is saved, loads, and
